@@ -184,3 +184,92 @@ def variant_table(a, adt_variants, scrutinee_ok):
         for v in allowed:
             table[adt_variants[v]].append((rt, site))
     return table
+
+
+# ---------------------------------------------------------------------- length grids
+_CMP = {'Eq': lambda x, y: x == y, 'Ne': lambda x, y: x != y, 'Lt': lambda x, y: x < y, 'Le': lambda x, y: x <= y,
+        'Gt': lambda x, y: x > y, 'Ge': lambda x, y: x >= y}
+
+
+def _len_eval(x, env):
+    """evaluate a term built from lengths of slice parameters, integer constants, comparisons and boolean connectives"""
+    k = x[0]
+    if k == 'const' and isinstance(x[2], bool):
+        return x[2]
+    if k == 'const' and isinstance(x[2], int):
+        return x[2]
+    if k == 'len' and x[1][0] == 'param':
+        return env[x[1][1]]
+    if k == 'call' and x[1].endswith('::is_empty') and len(x[2]) == 1 and x[2][0][0] == 'param':
+        return env[x[2][0][1]] == 0
+    if k == 'call' and x[1].endswith('::len') and len(x[2]) == 1 and x[2][0][0] == 'param':
+        return env[x[2][0][1]]
+    if k == 'un' and x[1] == 'Not':
+        return not _len_eval(x[2], env)
+    if k == 'bin' and x[1] in _CMP:
+        return _CMP[x[1]](_len_eval(x[2], env), _len_eval(x[3], env))
+    if k == 'bin' and x[1] in ('BitAnd', 'BitOr', 'BitXor'):
+        l, r = _len_eval(x[2], env), _len_eval(x[3], env)
+        if isinstance(l, bool) and isinstance(r, bool):
+            return {'BitAnd': l and r, 'BitOr': l or r, 'BitXor': l != r}[x[1]]
+    raise Undecidable('not a length comparison: ' + pp(x)[:100])
+
+
+def _thresholds(x, out):
+    if not isinstance(x, tuple) or not x:
+        return
+    if x[0] == 'const' and isinstance(x[2], int) and not isinstance(x[2], bool):
+        out.add(x[2])
+    for y in x[1:]:
+        if isinstance(y, tuple):
+            _thresholds(y, out)
+
+
+def len_grid_table(a, params):
+    """for a function that branches only on comparisons of the lengths of its slice parameters with constants:
+    exhaustive simulation over one representative length per equivalence class.
+    -> (reps, rows) with rows = [({param: len}, ret_term, site)]"""
+    if a.cfg.back_edges():
+        raise Undecidable('loop in ' + a.body.key)
+    ks = set()
+    for bi in sorted(a.cfg.reach):
+        t = a.body.blocks[bi]['term']
+        if t['k'] == 'switch':
+            _thresholds(strip_sites(a.val_op(t['discr'], a.term_point(bi))), ks)
+    top = (max(ks) if ks else 0) + 1
+    if top > 64:
+        raise Undecidable('length thresholds too large')
+    reps = list(range(0, top + 1))
+    rows = []
+    import itertools
+    for combo in itertools.product(reps, repeat=len(params)):
+        env = dict(zip(params, combo))
+        path = [0]
+        for _ in range(10000):
+            bi = path[-1]
+            t = a.body.blocks[bi]['term']
+            if t['k'] == 'return':
+                pa = PathAn(a, path)
+                last0 = None
+                for s in a.defs.get(0, []):
+                    if s[0] in pa.pos and (last0 is None or pa._before(last0, s)):
+                        last0 = s
+                rows.append((env, pa.ret_val(), last0))
+                break
+            if t['k'] == 'switch':
+                d = strip_sites(PathAn(a, path).val_op(t['discr'], a.term_point(bi)))
+                v = _len_eval(d, env)
+                v = int(v) if isinstance(v, bool) else v
+                nxt = None
+                for val, tgt in t['targets']:
+                    if val == v:
+                        nxt = tgt
+                path.append(nxt if nxt is not None else t['otherwise'])
+                continue
+            succ = a.cfg.succ[bi]
+            if len(succ) != 1:
+                raise Undecidable('no unique successor in bb%d' % bi)
+            path.append(succ[0])
+        else:
+            raise Undecidable('simulation does not terminate')
+    return reps, rows
